@@ -10,6 +10,7 @@ from specs import inotify_table as T
 
 PROP = "C03"
 GROUNDABLE = True
+GROUND_SCOPES = (4,)   # the emitter's path world needs a path, its parent and their two byte encodings
 BATTERY = "c03_battery.py"
 
 
